@@ -245,7 +245,7 @@ class World:
         for n, b in self.files().items():
             h.update(n.encode() + b'\0' + b + b'\1')
         y = self.y
-        h.update(os.path.basename(y.filename).encode() + b'\2' + y._contents.encode() + b'\3' + str(y.raw).encode())
+        h.update(os.path.basename(y.filename).encode() + b'\2' + str(y).encode() + b'\3' + str(y.raw).encode())
         h.update(repr(list(y.pairs())).encode() + repr([y[k] for k in y.pairs()]).encode())
         for t in y.tables():
             tab = y[t]
@@ -257,7 +257,7 @@ class World:
 
 
 def obj_snapshot(y):
-    snap = [os.path.basename(y.filename), y._contents, list(y.pairs()), [repr(y[k]) for k in y.pairs()], list(y.tables())]
+    snap = [os.path.basename(y.filename), str(y), list(y.pairs()), [repr(y[k]) for k in y.pairs()], list(y.tables())]
     for t in y.tables():
         tab = y[t]
         snap.append((repr(tab.dtype), tab.tobytes()) if isinstance(tab, np.ndarray) else repr(tab))
